@@ -191,3 +191,34 @@ C("mako.codegen:_Identifiers.visitDefTag", params={"self": "Idents", "node": "Ta
             "implies(not same(node, self.node), ite(node.is_root_ and not node.is_anonymous, node.funcname in self.topleveldefs and same(self.topleveldefs[node.funcname], node), node.funcname in self.closuredefs and same(self.closuredefs[node.funcname], node)))")],
   raises={"CompileException": {}, "*": {}},
   locals={"ident": "Str", "n": "ChildNode"}, props=["C04"], native_skip=True)
+
+# ---- _Identifiers.__init__: what a scope inherits, and the reserved-name check (C04) ----------------------
+CLASS("mako.codegen:_CompileContext@idents", name="CompilerRN", fields={"reserved_names": "Set[Str]"})
+CLASS("mako.util:SetLikeDict", name="SetLikeDict", fields={}, dictlike=("Str", "Obj[TagLike]"))
+CLASSES["Idents"].fields.update({"compiler": parse_ty("CompilerRN"), "locally_assigned": parse_ty("Set[Str]"),
+                                 "topleveldefs": parse_ty("Obj[SetLikeDict]"), "closuredefs": parse_ty("Obj[SetLikeDict]")})
+ASSUME("mako.util:SetLikeDict.__init__", params={"self": "SetLikeDict", "**kw": "Dict[Str,Obj[TagLike]]"},
+       modifies=["self"], ensures=[("copy", "content(self) == content(kw)")], note="SetLikeDict(**d): a new dict with d's entries")
+CLASSES["TagLike"].fields["name"] = parse_ty("Str")
+ASSUME("mako.exceptions:NameConflictError.__init__", params={"self": "NameConflictError", "*args": "Star"})
+CLASS("mako.exceptions:NameConflictError", name="NameConflictError", bases=["MakoException"], exception=True, fields={})
+
+_CLOSURE_NAME = "exists(lambda q: q in old(parent.closuredefs) and old(parent.closuredefs)[q].name == k, ty='Str')"
+_INHERITED = ("(k in old(parent.declared) or k in old(parent.locally_declared) or k in old(parent.argument_declared) or %s "
+              "or (nested and k in old(parent.undeclared)))" % _CLOSURE_NAME)
+
+C("mako.codegen:_Identifiers.__init__",
+  params={"self": "Idents", "compiler": "CompilerRN", "node": "Opt[Obj[ChildNode]]", "parent": "Opt[Obj[Idents]]", "nested": "Bool"},
+  requires=[("parent-sets-present", "implies(parent is not None, parent.declared is not None and parent.locally_declared is not None and parent.argument_declared is not None and parent.undeclared is not None and parent.closuredefs is not None and parent.topleveldefs is not None)"),
+            ("not-its-own-parent", "not same(parent, self)")],
+  modifies=["heap('f:Idents.')", "heap('dval:Str~Any')", "heap('ddom:Str~Any')", "fresh_heap('set:Str')", "fresh_heap('ddom:Str~Obj[TagLike]')", "fresh_heap('dval:Str~Obj[TagLike]')",
+            "fresh_heap('list:Str')"],
+  ensures=[("no reserved name is bound in this scope", "forall(lambda k: not (k in self.locally_declared and k in self.compiler.reserved_names), ty='Str')"),
+           ("compiler-kept", "same(self.compiler, compiler)"),
+           ("a scope without a parent starts with nothing declared", "implies(parent is None, forall(lambda k: k not in self.declared, ty='Str'))"),
+           ("a child scope may use what its parent declared, bound or took as arguments - and, when nested, what the parent obtains from the context",
+            "implies(parent is not None and not any_isinstance(node, 'NamespaceTag'), forall(lambda k: implies(k in old(parent.declared) or k in old(parent.locally_declared) or k in old(parent.argument_declared) or (nested and k in old(parent.undeclared)), k in self.declared), ty='Str'))")],
+  raises={"NameConflictError": {}, "*": {}},
+  props=["C04"], native_skip=True,
+  note="the node is visited under the induction hypothesis R3 (visitors only add names); the scope's inherited names are checked by the bounded scope grid")
+_C2["mako.codegen:_Identifiers.__init__"].opaque_attrs = True
